@@ -35,7 +35,6 @@ pub fn st_subborrow_u64(x: u64, y: u64, c: u8) -> (u64, u8) {
 static mut G_PLAIN: [u64; 4] = [0; 4]; // plain value k of the harness scalar
 static mut G_MONTY: [u64; 4] = [0; 4]; // its (opaque) Montgomery representation
 static mut G_MOD: [u64; 4] = [0; 4]; // modulus of the instantiation
-static mut G_MODE: u32 = 0; // see MODE_*
 static mut G_BL1: u32 = 0; // bl_nv returned by the level-1 stub
 static mut G_BL2: u32 = 0; // bl_nv returned by the level-2 stub (0 = not called)
 static mut G_NMUL: u32 = 0; // number of Montgomery products so far
@@ -43,10 +42,6 @@ static mut G_L192: u32 = 0; // lagrange192_spec stub called
 static mut G_L256: u32 = 0; // lagrange256 stub called
 static mut G_C1: [u64; 2] = [0; 2]; // u1 returned by the lagrange192 stub
 static mut G_GEN: ([u64; 2], [u64; 2]) = ([0; 2], [0; 2]); // lagrange256 stub output
-
-const MODE_ANY: u32 = 0; // every contract-satisfying behaviour
-const MODE_MAIN: u32 = 1; // level 2 returns bl_nv <= 208 (main path / level-1 fallback)
-const MODE_LONG: u32 = 2; // level 1 accepted, level 2 returns bl_nv > 208 (certificate)
 
 fn lt256(a: &[u64; 4], b: &[u64; 4]) -> bool {
     let (_, c) = st_subborrow_u64(a[0], b[0], 0);
@@ -96,32 +91,35 @@ fn bitlen_u128(x: u128) -> u32 {
     128 - x.leading_zeros()
 }
 
-// level 1: full documented contract when bl_nv <= 124
-pub fn st_basisconv(a: &[u64; 2], b: &[u64; 2]) -> (i64, i64, i64, i64, u32) {
+// level 1, proof direction: only the documented size consequence of
+// bl_nv <= 124 (|v| < 2^62, hence all four factors within 63 bits); weaker
+// than the full contract, i.e. more behaviours than the real routine has
+pub fn st_basisconv_weak(_a: &[u64; 2], _b: &[u64; 2]) -> (i64, i64, i64, i64, u32) {
     let bl: u32 = kani::any();
-    kani::assume(bl <= 256);
-    let mode = unsafe { G_MODE };
-    if mode == MODE_LONG {
-        kani::assume(bl <= 124);
-    }
+    kani::assume(bl >= 1 && bl <= 256);
     unsafe { G_BL1 = bl; }
     let e0: i64 = kani::any();
     let e1: i64 = kani::any();
     let f0: i64 = kani::any();
     let f1: i64 = kani::any();
-    if bl > 124 {
-        return (e0, e1, f0, f1, bl);
-    }
-    if mode != MODE_LONG {
-        // proof direction: only the documented size consequence of
-        // bl_nv <= 124 (|v| < 2^62, hence all four factors within 63 bits);
-        // a weaker contract than the full one below, i.e. more behaviours
+    if bl <= 124 {
         let lim = (1i64 << 62) + 1;
         kani::assume(e0 > -lim && e0 < lim && e1 > -lim && e1 < lim);
         kani::assume(f0 > -lim && f0 < lim && f1 > -lim && f1 < lim);
-        kani::assume(bl >= 1);
-        return (e0, e1, f0, f1, bl);
     }
+    (e0, e1, f0, f1, bl)
+}
+
+// level 1, reachability direction: the FULL documented contract with
+// bl_nv <= 124 (the basis is accepted by the caller)
+pub fn st_basisconv_full(a: &[u64; 2], b: &[u64; 2]) -> (i64, i64, i64, i64, u32) {
+    let bl: u32 = kani::any();
+    kani::assume(bl >= 1 && bl <= 124);
+    unsafe { G_BL1 = bl; }
+    let e0: i64 = kani::any();
+    let e1: i64 = kani::any();
+    let f0: i64 = kani::any();
+    let f1: i64 = kani::any();
     // operands: a <= b < 2^114 (k and n scaled down by 142 bits, n < 2^256)
     const M57: u64 = (1u64 << 57) - 1;
     let al = (a[0] & M57) as i128;
@@ -163,57 +161,60 @@ pub fn st_basisconv(a: &[u64; 2], b: &[u64; 2]) -> (i64, i64, i64, i64, u32) {
 // certificate bound: N(w) <= G_CERT implies N(w) * 2^208 <= (n >> 85)^2
 static mut G_CERT: u128 = 0;
 
-pub fn st_spec128(a0: &[u64; 2], a1: &[u64; 2], b0: &[u64; 2], b1: &[u64; 2])
+// level 2, main path: bl_nv <= 208, i.e. N(v) < 2^208: both second
+// coordinates are below 2^104 in absolute value
+pub fn st_spec128_short(_a0: &[u64; 2], _a1: &[u64; 2], _b0: &[u64; 2], _b1: &[u64; 2])
     -> ([u64; 2], [u64; 2], u32)
 {
     let bl: u32 = kani::any();
-    kani::assume(bl >= 1 && bl <= 256);
-    let mode = unsafe { G_MODE };
-    if mode == MODE_MAIN {
-        kani::assume(bl <= 208);
-    }
-    if mode == MODE_LONG {
-        kani::assume(bl > 208);
-    }
+    kani::assume(bl >= 1 && bl <= 208);
     unsafe { G_BL2 = bl; }
     let u1: [u64; 2] = kani::any();
     let v1: [u64; 2] = kani::any();
-    if bl > 208 {
-        // certificate: w = x*A + y*B, nonzero, N(w) <= G_CERT
-        let x: i64 = kani::any();
-        let y: i64 = kani::any();
-        let lim = 1i64 << 62;
-        kani::assume(x > -lim && x < lim && y > -lim && y < lim);
-        let (xw, yw) = (x as i128, y as i128);
-        // second coordinates are sign-extended 64-bit values (e0, f0)
-        let a1s = a1[0] as i64 as i128;
-        let b1s = b1[0] as i64 as i128;
-        kani::assume(a1[1] == ((a1[0] as i64) >> 63) as u64 && b1[1] == ((b1[0] as i64) >> 63) as u64);
-        let mul = |p: i128, q: i128| p.wrapping_mul(q);
-        let add = |p: i128, q: i128| p.wrapping_add(q);
-        let w1 = add(mul(xw, a1s), mul(yw, b1s));
-        // first coordinates: signed 128-bit, |.| < 2^123 (57 + 65 bits + sign)
-        let a0l = a0[0] as i128;
-        let a0h = a0[1] as i64 as i128;
-        let b0l = b0[0] as i128;
-        let b0h = b0[1] as i64 as i128;
-        let l59 = 1i128 << 59;
-        kani::assume(a0h >= -l59 && a0h < l59 && b0h >= -l59 && b0h < l59);
-        let wl = add(mul(xw, a0l), mul(yw, b0l));
-        let wh = add(add(mul(xw, a0h), mul(yw, b0h)), wl >> 64);
-        let wlow = wl as u64;
-        kani::assume((wh == 0 && (wlow >> 63) == 0) || (wh == -1 && (wlow >> 63) == 1));
-        let w0 = wlow as i64 as i128;
-        let l63 = 1i128 << 63;
-        kani::assume(w1 > -l63 && w1 < l63);
-        kani::assume(w0 != 0 || w1 != 0);
-        let nw = add(mul(w0, w0), mul(w1, w1)) as u128;
-        kani::assume(nw <= unsafe { G_CERT });
-    } else {
-        // N(v) < 2^208: both second coordinates are below 2^104 in absolute value
-        let hi = |z: &[u64; 2]| ((z[1] as i64) >> 40) == 0 || ((z[1] as i64) >> 40) == -1;
-        kani::assume(hi(&u1) && hi(&v1));
-    }
+    let hi = |z: &[u64; 2]| ((z[1] as i64) >> 40) == 0 || ((z[1] as i64) >> 40) == -1;
+    kani::assume(hi(&u1) && hi(&v1));
+    (u1, v1, bl)
+}
+
+// level 2, "second vector too long": bl_nv > 208 with its certificate
+pub fn st_spec128_long(a0: &[u64; 2], a1: &[u64; 2], b0: &[u64; 2], b1: &[u64; 2])
+    -> ([u64; 2], [u64; 2], u32)
+{
+    let bl: u32 = kani::any();
+    kani::assume(bl > 208 && bl <= 256);
+    unsafe { G_BL2 = bl; }
+    let u1: [u64; 2] = kani::any();
+    let v1: [u64; 2] = kani::any();
+    // certificate: w = x*A + y*B, nonzero, N(w) <= G_CERT
+    let x: i64 = kani::any();
+    let y: i64 = kani::any();
+    let lim = 1i64 << 62;
+    kani::assume(x > -lim && x < lim && y > -lim && y < lim);
+    let (xw, yw) = (x as i128, y as i128);
+    // second coordinates are sign-extended 64-bit values (e0, f0)
+    let a1s = a1[0] as i64 as i128;
+    let b1s = b1[0] as i64 as i128;
+    kani::assume(a1[1] == ((a1[0] as i64) >> 63) as u64 && b1[1] == ((b1[0] as i64) >> 63) as u64);
+    let mul = |p: i128, q: i128| p.wrapping_mul(q);
+    let add = |p: i128, q: i128| p.wrapping_add(q);
+    let w1 = add(mul(xw, a1s), mul(yw, b1s));
+    // first coordinates: signed 128-bit, |.| < 2^123 (57 + 65 bits + sign)
+    let a0l = a0[0] as i128;
+    let a0h = a0[1] as i64 as i128;
+    let b0l = b0[0] as i128;
+    let b0h = b0[1] as i64 as i128;
+    let l59 = 1i128 << 59;
+    kani::assume(a0h >= -l59 && a0h < l59 && b0h >= -l59 && b0h < l59);
+    let wl = add(mul(xw, a0l), mul(yw, b0l));
+    let wh = add(add(mul(xw, a0h), mul(yw, b0h)), wl >> 64);
+    let wlow = wl as u64;
+    kani::assume((wh == 0 && (wlow >> 63) == 0) || (wh == -1 && (wlow >> 63) == 1));
+    let w0 = wlow as i64 as i128;
+    let l63 = 1i128 << 63;
+    kani::assume(w1 > -l63 && w1 < l63);
+    kani::assume(w0 != 0 || w1 != 0);
+    let nw = add(mul(w0, w0), mul(w1, w1)) as u128;
+    kani::assume(nw <= unsafe { G_CERT });
     (u1, v1, bl)
 }
 
@@ -244,18 +245,21 @@ fn as_i128(x: &[u64; 2]) -> i128 {
 }
 
 // ------------------------------------------------------------------------
-// harness body
+// harness bodies
 
-fn split_glue<const M0: u64, const M1: u64, const M2: u64, const M3: u64>(mode: u32) {
+fn run_split<const M0: u64, const M1: u64, const M2: u64, const M3: u64>(ktop: u64) -> (i128, i128) {
     let k: [u64; 4] = kani::any();
     let m = [M0, M1, M2, M3];
     kani::assume(lt256(&k, &m));
+    if ktop != 0 {
+        // restricted family (quick tier): k < ktop * 2^192
+        kani::assume(k[3] < ktop);
+    }
     // certificate bound: ((n >> 189)^2 capped to 63-bit coordinates
     let c = ((M2 >> 61) as u128) | ((M3 as u128) << 3);
     let c = if c > 0x7FFF_FFFF_FFFF_FFFF { 0x7FFF_FFFF_FFFF_FFFFu128 } else { c };
     unsafe {
         G_MOD = m;
-        G_MODE = mode;
         G_CERT = c.wrapping_mul(c);
         G_BL1 = 0; G_BL2 = 0; G_NMUL = 0; G_L192 = 0; G_L256 = 0;
     }
@@ -266,29 +270,49 @@ fn split_glue<const M0: u64, const M1: u64, const M2: u64, const M3: u64>(mode: 
         G_MONTY = s.0;
         G_NMUL = 0;
     }
-    let (c0, c1) = s.split_vartime();
+    s.split_vartime()
+}
+
+// main path and level-1 fallback, for every scalar and every behaviour of
+// the weak level-1 / short level-2 contracts
+fn split_glue_main<const M0: u64, const M1: u64, const M2: u64, const M3: u64>() {
+    let (c0, c1) = run_split::<M0, M1, M2, M3>(0);
+    if is_native() {
+        return;
+    }
     unsafe {
         if G_L256 != 0 {
             // fallback: the pair of the generic routine, truncated to 128 bits
             assert!(c0 == as_i128(&G_GEN.0) && c1 == as_i128(&G_GEN.1));
-            assert!(G_BL1 > 124 || G_BL2 > 208);
+            assert!(G_BL1 > 124 && G_BL2 == 0);
             assert!(G_L192 == 0 && G_NMUL == 0);
-        } else if !is_native() {
+        } else {
             assert!(G_BL1 <= 124 && G_BL2 >= 1 && G_BL2 <= 208);
-            // main path: c1 is the (truncated) second coordinate found by the
-            // last reduction; 2 products for the basis, 1 for c0, 0 or 1 for
-            // the +-2^128 candidates
+            // c1 is the (truncated) second coordinate found by the last
+            // reduction; 2 products for the basis, 1 for c0, 0 or 1 for the
+            // +-2^128 candidates
             assert!(G_L192 == 1 && c1 == as_i128(&G_C1));
             assert!(G_NMUL == 3 || G_NMUL == 4);
         }
-        if mode == MODE_LONG {
-            // (reached only when the leftover assertion is gone)
-            kani::cover!(G_L256 != 0 && G_BL1 <= 124 && G_BL2 > 208);
-        } else {
-            kani::cover!(G_L256 != 0 && G_BL1 > 124);
-            kani::cover!(G_L256 == 0 && G_NMUL == 3);
-            kani::cover!(G_L256 == 0 && G_NMUL == 4);
-        }
+        kani::cover!(G_L256 != 0 && G_BL1 > 124);
+        kani::cover!(G_L256 == 0 && G_NMUL == 3);
+        kani::cover!(G_L256 == 0 && G_NMUL == 4);
+    }
+}
+
+// "second vector too long": level 1 accepted (full contract), level 2 returns
+// bl_nv > 208 (certificate).  The documented behaviour is the fallback to the
+// generic routine; a panic here is the leftover `assert!(false)`.
+fn split_glue_long<const M0: u64, const M1: u64, const M2: u64, const M3: u64>(ktop: u64) {
+    let (c0, c1) = run_split::<M0, M1, M2, M3>(ktop);
+    if is_native() {
+        return;
+    }
+    unsafe {
+        assert!(G_L256 == 1 && G_BL1 <= 124 && G_BL2 > 208);
+        assert!(c0 == as_i128(&G_GEN.0) && c1 == as_i128(&G_GEN.1));
+        assert!(G_L192 == 0 && G_NMUL == 0);
+        kani::cover!(G_L256 == 1);
     }
 }
 
@@ -301,30 +325,34 @@ fn is_native_no() -> bool {
     false
 }
 
-macro_rules! glue_harness { ($name:ident, $mode:expr, $m0:expr, $m1:expr, $m2:expr, $m3:expr) => {
+macro_rules! glue_harness { ($name:ident, $body:ident ( $($arg:expr),* ), $l1:ident, $l2:ident, $m0:expr, $m1:expr, $m2:expr, $m3:expr) => {
     #[kani::proof]
     #[kani::unwind(5)]
     #[kani::stub(crate::backend::w64::addcarry_u64, st_addcarry_u64)]
     #[kani::stub(crate::backend::w64::subborrow_u64, st_subborrow_u64)]
     #[kani::stub(crate::backend::w64::modint::ModInt256::set_mul, st_set_mul)]
     #[kani::stub(crate::backend::w64::modint::ModInt256::set_montyred, st_set_montyred)]
-    #[kani::stub(crate::backend::w64::lagrange::lagrange128_basisconv_vartime, st_basisconv)]
-    #[kani::stub(crate::backend::w64::lagrange::lagrange128_spec_vartime, st_spec128)]
+    #[kani::stub(crate::backend::w64::lagrange::lagrange128_basisconv_vartime, $l1)]
+    #[kani::stub(crate::backend::w64::lagrange::lagrange128_spec_vartime, $l2)]
     #[kani::stub(crate::backend::w64::lagrange::lagrange192_spec_vartime, st_spec192)]
     #[kani::stub(crate::backend::w64::lagrange::lagrange256_vartime, st_lagrange256)]
     #[kani::stub(is_native, is_native_no)]
     fn $name() {
-        split_glue::<{ $m0 }, { $m1 }, { $m2 }, { $m3 }>($mode);
+        $body::<{ $m0 }, { $m1 }, { $m2 }, { $m3 }>($($arg),*);
     }
 } }
 
 // ed25519::Scalar (modulus below the 1.73*2^253 bound)
-glue_harness!(verif_split_glue_main_ed25519, MODE_MAIN,
+glue_harness!(verif_split_glue_main_ed25519, split_glue_main(), st_basisconv_weak, st_spec128_short,
     0x5812631A5CF5D3ED, 0x14DEF9DEA2F79CD6, 0x0000000000000000, 0x1000000000000000);
-glue_harness!(verif_split_glue_long_ed25519, MODE_LONG,
+glue_harness!(verif_split_glue_long_ed25519, split_glue_long(0), st_basisconv_full, st_spec128_long,
+    0x5812631A5CF5D3ED, 0x14DEF9DEA2F79CD6, 0x0000000000000000, 0x1000000000000000);
+glue_harness!(verif_split_glue_lsmall_ed25519, split_glue_long(1 << 12), st_basisconv_full, st_spec128_long,
     0x5812631A5CF5D3ED, 0x14DEF9DEA2F79CD6, 0x0000000000000000, 0x1000000000000000);
 // p256::Scalar (large-modulus path)
-glue_harness!(verif_split_glue_main_p256, MODE_MAIN,
+glue_harness!(verif_split_glue_main_p256, split_glue_main(), st_basisconv_weak, st_spec128_short,
     0xF3B9CAC2FC632551, 0xBCE6FAADA7179E84, 0xFFFFFFFFFFFFFFFF, 0xFFFFFFFF00000000);
-glue_harness!(verif_split_glue_long_p256, MODE_LONG,
+glue_harness!(verif_split_glue_long_p256, split_glue_long(0), st_basisconv_full, st_spec128_long,
+    0xF3B9CAC2FC632551, 0xBCE6FAADA7179E84, 0xFFFFFFFFFFFFFFFF, 0xFFFFFFFF00000000);
+glue_harness!(verif_split_glue_lsmall_p256, split_glue_long(1 << 12), st_basisconv_full, st_spec128_long,
     0xF3B9CAC2FC632551, 0xBCE6FAADA7179E84, 0xFFFFFFFFFFFFFFFF, 0xFFFFFFFF00000000);
